@@ -1057,6 +1057,9 @@ class HistogramBase(abc.ABC):
         if isinstance(other, HistogramBase):
             if other.ndim != self.ndim:
                 raise ValueError("Cannot add histograms with different dimensions.")
+            if np.shape(self._missed) != np.shape(other._missed):
+                # (underflow, overflow, inner) of Histogram1D versus the single counter of HistogramND
+                raise ValueError("Cannot add 1D histogram and N-D histogram with one axis.")
             if self.has_same_bins(other):
                 # print("Has same!!!!!!!!!!")
                 self._coerce_dtype(other.dtype)
